@@ -228,6 +228,42 @@ pub fn run(ctx: &mut Ctx) {
             oracle(ctx, name, label, text, &o, &r, raw, replayed, max_uses);
         }
     }
+    // ---- the event / node limits of the budget bound what is delivered, replayed events included
+    for (name, text) in &family {
+        let Some((raw, replayed, _)) = expansion(text) else { continue };
+        if replayed == 0 || raw + replayed > 20_000 {
+            continue;
+        }
+        for (label, m) in [("max_events=total-1", raw + replayed - 1), ("max_events=half", (raw + replayed) / 2 + 1)] {
+            let mut b = live::big_budget();
+            b.max_events = m;
+            let mut o = PumpOpts::new(Some(b));
+            o.max_events = 400_000;
+            let (r, _) = live::run_pump(text, &o);
+            ctx.direct_evaluations += 1;
+            let delivered = r.events.len();
+            if delivered > m {
+                ctx.fail("delivered-exceeds-budget", format!("{name} [{label}]: {delivered} events delivered under Budget::max_events = {m} (raw {raw} + replayed {replayed}); result {:?}", r.error.as_ref().map(|e| crate::coq::variant_name(e))),
+                    json!({"kind": "budget_events", "family": name, "text": text, "max_events": m}));
+            }
+        }
+        {
+            // nodes: scalars and container starts, replayed ones included
+            let mut b = live::big_budget();
+            let (r0, _) = live::run_pump(text, &PumpOpts::new(Some(live::big_budget())));
+            let nodes = r0.events.iter().filter(|e| matches!(e.kind, 0 | 1 | 3)).count();
+            if nodes < 2 || r0.error.is_some() {
+                continue;
+            }
+            b.max_nodes = nodes / 2;
+            let (r, _) = live::run_pump(text, &PumpOpts::new(Some(b)));
+            ctx.direct_evaluations += 1;
+            let got = r.events.iter().filter(|e| matches!(e.kind, 0 | 1 | 3)).count();
+            if got > nodes / 2 {
+                ctx.fail("delivered-exceeds-budget", format!("{name}: {got} nodes delivered under Budget::max_nodes = {}", nodes / 2), json!({"kind": "budget_nodes", "family": name, "text": text, "max_nodes": nodes / 2}));
+            }
+        }
+    }
     iterator_recovery(ctx);
     memory(ctx);
 }
